@@ -13,6 +13,7 @@ CONSTANTS
   InitRate = 6000
   F6Quirk = FALSE
   F7Quirk = FALSE
+  PoorShare = 0
   MaxLen = 120
 INVARIANTS Dump
 CHECK_DEADLOCK FALSE
